@@ -88,16 +88,20 @@ func DrawInstant(t *rapid.T) (time.Time, string) {
 		loc = time.UTC
 		zone = "UTC"
 	}
+	// most instants lie where every sampled zone has a whole-minute offset (from 1950 on): before that local mean time and
+	// other sub-minute offsets are common, which the ISO form cannot express (such instants only reach the other clauses)
 	var year int
-	switch rapid.IntRange(0, 9).Draw(t, "yk") {
+	switch rapid.SampledFrom([]int{4, 4, 4, 4, 4, 4, 4, 3, 2, 1, 0}).Draw(t, "yk") {
 	case 0:
 		year = rapid.IntRange(1, 999).Draw(t, "y")
 	case 1:
 		year = rapid.IntRange(1000, 1899).Draw(t, "y")
 	case 2:
 		year = rapid.IntRange(2100, 9999).Draw(t, "y")
+	case 3:
+		year = rapid.IntRange(1900, 1949).Draw(t, "y")
 	default:
-		year = rapid.IntRange(1900, 2099).Draw(t, "y")
+		year = 1950 + rapid.IntRange(0, 149).Draw(t, "y")
 	}
 	month := rapid.IntRange(1, 12).Draw(t, "mo")
 	day := rapid.IntRange(1, 28).Draw(t, "d")
